@@ -140,11 +140,13 @@ Definition fr_map_from_int (r : frange) (x : Z) : val :=
   if f_cast_int r then VI (round_he y) else VF y.
 (* value before rounding, exposed for the correspondence *)
 Definition fr_map_to_int_pre (r : frange) (y : Q) : Q :=
-  (Qclip (to_int (f_sc r) y) (f_lo_i r) (f_hi_i r) - f_lo_i r) / f_step r.
-(* to_internal(y) is applied to the un-clipped value: its assert can fail *)
+  (Qclip (to_int (f_sc r) (Qclip y (f_lo r) (f_hi r))) (f_lo_i r) (f_hi_i r) - f_lo_i r) / f_step r.
+(* y is clipped to [lower_bound, upper_bound] BEFORE to_internal (whose assert is kept in the model)
+   [before the fix of F-C07-8 to_internal was applied to the un-clipped value: a listed value 0 of a
+    logfinrange with cast_int could not be encoded] *)
 Definition fr_map_to_int (r : frange) (y : Q) : option Z :=
   if Qeqb (f_step r) 0 then Some 0%Z
-  else if sc_dom (f_sc r) y then Some (round_he (fr_map_to_int_pre r y)) else None.
+  else if sc_dom (f_sc r) (Qclip y (f_lo r) (f_hi r)) then Some (round_he (fr_map_to_int_pre r y)) else None.
 Definition fr_to_nd (eps : Q) (r : frange) (hp : val) : option Q :=
   match fr_map_to_int r (val_num hp) with
   | Some i => int_to_nd eps (f_rint r) i
@@ -178,8 +180,28 @@ Definition argmin (l : list Q) : nat :=
 
 Definition onehot_to_nd (choices : list val) (hp : val) : option (list Q) :=
   option_map (fun i => onehot i (length choices)) (index_of hp choices).
-Definition onehot_from_nd (choices : list val) (v : list Q) : option val :=
-  if Nat.eqb (length v) (length choices) then nth_error choices (argmax v) else None.
+(* first ACTIVE choice whose coordinate equals the maximum *)
+Fixpoint first_tie (act : list val) (best : Q) (choices : list val) (v : list Q) : option val :=
+  match choices, v with
+  | c :: cs, x :: xs => if mem_val c act && Qeqb x best then Some c else first_tie act best cs xs
+  | _, _ => None
+  end.
+(* choices[argmax v]; with active choices, a maximum at an inactive position is replaced by the
+   first active position attaining the same value (ties are broken in favour of active choices)
+   [before the fix of F-C07-7: always choices[argmax v], so the all-zero vector, which lies inside
+    get_ndarray_bounds, was decoded to choices[0] even when inactive] *)
+Definition onehot_from_nd (choices : list val) (active : option (list val)) (v : list Q) : option val :=
+  if Nat.eqb (length v) (length choices) then
+    match nth_error choices (argmax v), active with
+    | Some c, Some act =>
+        if mem_val c act then Some c
+        else match first_tie act (nth (argmax v) v 0) choices v with
+             | Some c' => Some c'
+             | None => Some c
+             end
+    | r, _ => r
+    end
+  else None.
 Definition count_in (active choices : list val) : nat :=
   length (filter (fun c => mem_val c active) choices).
 Definition onehot_bounds (choices : list val) (active : option (list val)) : option (list (Q * Q)) :=
@@ -187,7 +209,7 @@ Definition onehot_bounds (choices : list val) (active : option (list val)) : opt
   | None => Some (if Nat.ltb 1 (length choices) then repeat (0, 1) (length choices) else [(1, 1)])
   | Some act =>
       let nz := if Nat.ltb 1 (length act) then (0, 1) else (1, 1) in
-      if Nat.eqb (count_in act choices) (length act)
+      if Nat.ltb 0 (length act) && Nat.eqb (count_in act choices) (length act)
       then Some (map (fun c => if mem_val c act then nz else (0, 0)) choices)
       else None
   end.
@@ -280,13 +302,14 @@ Definition nn_cast_int (cats : list val) (ci : list Q) (x : Q) : option val :=
 (* cast(value) = cast_int(log(float(value)) | float(value)) *)
 Definition nn_cast (sc : scaling) (cats : list val) (x : Q) : option val :=
   nn_cast_int cats (nn_cats_int sc cats) (to_int sc x).
-(* sample: uniform(lower_int, upper_int) = lower + (upper - lower) * u.
-   With one category lower_int/upper_int are None in the code: TypeError = None *)
+(* sample: uniform(lower_int, upper_int) = lower + (upper - lower) * u; with one category the
+   category itself, without a draw
+   [before the fix of F-C07-6: uniform(None, None) -> TypeError] *)
 Definition nn_sample (sc : scaling) (cats : list val) (u : Q) : option val :=
   if Nat.ltb 1 (length cats) then
     let ci := nn_cats_int sc cats in
     nn_cast_int cats ci (nn_lower_int ci + (nn_upper_int ci - nn_lower_int ci) * u)
-  else None.
+  else nth_error cats 0.
 
 (* HyperparameterRangeOrdinalNearestNeighbor._get_active_bounds (the code as it is:
    the num_active_choices == 1 assignment is overwritten by what follows) *)
@@ -360,7 +383,7 @@ Definition hp_to_nd (eps : Q) (h : hprange) (x : val) : option (list Q) :=
 
 Definition hp_from_nd (eps : Q) (h : hprange) (v : list Q) : option val :=
   match h, v with
-  | HOneHot choices _, _ => onehot_from_nd choices v
+  | HOneHot choices active, _ => onehot_from_nd choices active v
   | HCont r, [x] => option_map VF (cont_from_nd eps r x)
   | HInt r, [x] => option_map VI (int_from_nd eps r x)
   | HFin r, [x] => fr_from_nd eps r x
@@ -502,8 +525,16 @@ Definition dom_member (sc_log : scaling) (d : domain) (x : val) : bool :=
   | _, _ => false
   end.
 
-(* Quantized.sample: np.round(np.divide(values, q)) * q *)
+(* Quantized.sample: np.round(np.divide(values, q)) * q, then clipped: for an Integer domain to
+   the multiples of q inside [lower, upper] (to the bounds if there is none), for a Float domain to
+   [lower, upper]   [before the fix of F-C07-1/2 there was no clip: qrandint(1,10,4) sampled 0] *)
 Definition quantize (q v : Q) : Q := inject_Z (round_he (v / q)) * q.
+Definition quant_bounds_int (q : Q) (lo hi : Z) : Q * Q :=
+  let ql := inject_Z (Qceiling (inject_Z lo / q)) * q in
+  let qh := inject_Z (Qfloor (inject_Z hi / q)) * q in
+  if Qleb ql qh then (ql, qh) else (inject_Z lo, inject_Z hi).
+Definition quantize_int (q : Q) (lo hi : Z) (v : Q) : Z :=
+  let '(a, b) := quant_bounds_int q lo hi in round_he (Qclip (quantize q v) a b).
 
 (* Samplers as functions of the raw numpy draw:
      RawU u : the draw of random_state.uniform(a, b) is a + (b - a) * u, u in [0,1)
@@ -513,12 +544,12 @@ Inductive raw := RawU (u : Q) | RawI (i : Z).
 Definition sample_float (sc_log sc_rev : scaling) (lo hi : Q) (s : sampler) (r : raw) : option Q :=
   match s, r with
   | SUniform, RawU u => Some (lo + (hi - lo) * u)
-  | SLogUniform, RawU u =>
+  | SLogUniform, RawU u =>      (* np.clip(np.exp(..), lower, upper)  [no clip before F-C07-9] *)
       let a := to_int sc_log lo in let b := to_int sc_log hi in
-      Some (from_int sc_log (a + (b - a) * u))
-  | SRevLog, RawU u =>
+      Some (Qclip (from_int sc_log (a + (b - a) * u)) lo hi)
+  | SRevLog, RawU u =>          (* np.clip(-np.expm1(-..), lower, upper)  [no clip before F-C07-10] *)
       let a := to_int sc_rev lo in let b := to_int sc_rev hi in
-      Some (from_int sc_rev (a + (b - a) * u))
+      Some (Qclip (from_int sc_rev (a + (b - a) * u)) lo hi)
   | _, _ => None
   end.
 Definition sample_int (sc_log : scaling) (lo hi : Z) (s : sampler) (r : raw) : option Q :=
@@ -532,10 +563,11 @@ Definition sample_int (sc_log : scaling) (lo hi : Z) (s : sampler) (r : raw) : o
 
 Definition dom_sample (sc_log sc_rev : scaling) (d : domain) (r : raw) : option val :=
   match d with
-  | DFloat lo hi (SQuant s q) => option_map (fun v => VF (quantize q v)) (sample_float sc_log sc_rev lo hi s r)
+  | DFloat lo hi (SQuant s q) =>
+      option_map (fun v => VF (Qclip (quantize q v) lo hi)) (sample_float sc_log sc_rev lo hi s r)
   | DFloat lo hi s => option_map VF (sample_float sc_log sc_rev lo hi s r)
   | DInteger lo hi (SQuant s q) =>
-      option_map (fun v => VI (round_he (quantize q v))) (sample_int sc_log lo hi s r)
+      option_map (fun v => VI (quantize_int q lo hi v)) (sample_int sc_log lo hi s r)
   | DInteger lo hi s => option_map (fun v => VI (round_he v)) (sample_int sc_log lo hi s r)
   | DCategorical cats SUniform | DOrdinal cats SUniform =>
       match r with RawI i => nth_error cats (Z.to_nat i) | _ => None end
@@ -590,7 +622,10 @@ Definition range_of_domain (eps : Q) (sc_log sc_rev : scaling) (d : domain) (act
       end
   | DOrdinalNN cats ls =>
       let sc := if ls then sc_log else linear in
-      option_map (HOrdNN sc cats) (nn_range sc cats (match active with Some a => dom_cats a | None => None end))
+      let act := match active with Some a => dom_cats a | None => None end in
+      (* one category: the equal-distance ordinal range [before F-C07-6: assertion failure] *)
+      if Nat.ltb 1 (length cats) then option_map (HOrdNN sc cats) (nn_range sc cats act)
+      else option_map (HOrdEq cats) (ordeq_range cats act)
   | DOrdinal cats _ =>
       option_map (HOrdEq cats) (ordeq_range cats (match active with Some a => dom_cats a | None => None end))
   | DCategorical cats _ =>
@@ -601,9 +636,11 @@ Definition range_of_domain (eps : Q) (sc_log sc_rev : scaling) (d : domain) (act
 
 (* ---- to_dict / from_dict: the kwargs convention ------------------------------- *)
 Inductive cls := CFloat | CInteger | CCategorical | COrdinal | COrdinalNN | CFiniteRange.
-(* str(sampler): Uniform -> "Uniform", LogUniform -> "LogUniform"; _ReverseLogUniform
-   inherits __str__ from LogUniform; Quantized has no __str__ (object repr) *)
-Inductive sname := NUniform | NLogUniform | NObjectRepr.
+(* str(sampler): Uniform -> "Uniform", LogUniform -> "LogUniform", _ReverseLogUniform ->
+   "ReverseLogUniform" [before the fix of F-C07-4 it inherited "LogUniform"]; Quantized has no
+   __str__ (object repr), but to_dict unwraps ONE Quantized level into the "quantization" entry
+   [before the fix of F-C07-5 it did not: json.dumps failed on the wrapped sampler object] *)
+Inductive sname := NUniform | NLogUniform | NReverseLogUniform | NObjectRepr.
 Inductive jval := JQ (q : Q) | JZ (z : Z) | JB (b : bool) | JL (l : list val)
                 | JObj.   (* a Python object that json cannot serialise *)
 Inductive kw := KLower | KUpper | KCategories | KLogScale | KCastInt | KSize | KBase | KSampler | KQ.
@@ -614,10 +651,14 @@ Definition kw_eqb (a b : kw) : bool :=
   | _, _ => false
   end.
 Record ddict := { d_cls : cls; d_kwargs : list (kw * jval);
-                  d_sampler : option (sname * list (kw * jval)) }.
+                  d_sampler : option (sname * list (kw * jval));
+                  d_quant : option Q }.
 
 Definition sampler_name (s : sampler) : sname :=
-  match s with SUniform => NUniform | SLogUniform | SRevLog => NLogUniform | SQuant _ _ => NObjectRepr end.
+  match s with SUniform => NUniform | SLogUniform => NLogUniform | SRevLog => NReverseLogUniform
+             | SQuant _ _ => NObjectRepr end.
+Definition split_quant (s : sampler) : option Q * sampler :=
+  match s with SQuant i q => (Some q, i) | _ => (None, s) end.
 (* sampler.__dict__ ; [base] = np.exp(1.0) *)
 Definition sampler_kwargs (base : Q) (s : sampler) : list (kw * jval) :=
   match s with
@@ -625,23 +666,25 @@ Definition sampler_kwargs (base : Q) (s : sampler) : list (kw * jval) :=
   | SLogUniform | SRevLog => [(KBase, JQ base)]
   | SQuant _ q => [(KSampler, JObj); (KQ, JQ q)]
   end.
+Definition sampler_entry (base : Q) (s : sampler) : option (sname * list (kw * jval)) :=
+  Some (sampler_name (snd (split_quant s)), sampler_kwargs base (snd (split_quant s))).
 
 Definition to_dict (base : Q) (d : domain) : ddict :=
   match d with
   | DFloat lo hi s => {| d_cls := CFloat; d_kwargs := [(KLower, JQ lo); (KUpper, JQ hi)];
-                         d_sampler := Some (sampler_name s, sampler_kwargs base s) |}
+                         d_sampler := sampler_entry base s; d_quant := fst (split_quant s) |}
   | DInteger lo hi s => {| d_cls := CInteger; d_kwargs := [(KLower, JZ lo); (KUpper, JZ hi)];
-                           d_sampler := Some (sampler_name s, sampler_kwargs base s) |}
+                           d_sampler := sampler_entry base s; d_quant := fst (split_quant s) |}
   | DCategorical c s => {| d_cls := CCategorical; d_kwargs := [(KCategories, JL c)];
-                           d_sampler := Some (sampler_name s, sampler_kwargs base s) |}
+                           d_sampler := sampler_entry base s; d_quant := fst (split_quant s) |}
   | DOrdinal c s => {| d_cls := COrdinal; d_kwargs := [(KCategories, JL c)];
-                       d_sampler := Some (sampler_name s, sampler_kwargs base s) |}
+                       d_sampler := sampler_entry base s; d_quant := fst (split_quant s) |}
   | DOrdinalNN c ls => {| d_cls := COrdinalNN; d_kwargs := [(KCategories, JL c); (KLogScale, JB ls)];
-                          d_sampler := None |}
+                          d_sampler := None; d_quant := None |}
   | DFiniteRange lo hi size ls ci =>
       {| d_cls := CFiniteRange;
          d_kwargs := [(KLower, JQ lo); (KUpper, JQ hi); (KLogScale, JB ls); (KCastInt, JB ci); (KSize, JZ size)];
-         d_sampler := None |}
+         d_sampler := None; d_quant := None |}
   end.
 
 (* json.dumps succeeds iff no un-serialisable object occurs *)
@@ -654,16 +697,24 @@ Definition json_serialisable (d : ddict) : bool :=
 Fixpoint kw_get (k : kw) (l : list (kw * jval)) : option jval :=
   match l with [] => None | (k', v) :: r => if kw_eqb k k' then Some v else kw_get k r end.
 
-(* getattr(domain_cls, underscore + sampler_cls) applied to sampler_kwargs: Float and Integer have
-   _Uniform and _LogUniform, Categorical/Ordinal only _Uniform *)
+(* getattr(domain_cls, underscore + sampler_cls) applied to sampler_kwargs: Float has _Uniform,
+   _LogUniform and _ReverseLogUniform, Integer _Uniform and _LogUniform, Categorical/Ordinal
+   only _Uniform *)
 Definition sampler_from (c : cls) (n : sname) (k : list (kw * jval)) : option sampler :=
   match n, c with
   | NUniform, (CFloat | CInteger | CCategorical | COrdinal) =>
       match k with [] => Some SUniform | _ => None end
   | NLogUniform, (CFloat | CInteger) =>
       match k with [(KBase, JQ b)] => if Qltb 0 b then Some SLogUniform else None | _ => None end
+  | NReverseLogUniform, CFloat =>
+      match k with [(KBase, JQ b)] => if Qltb 0 b then Some SRevLog else None | _ => None end
   | _, _ => None
   end.
+(* domain.quantized(q) when the "quantization" entry is present (only Float and Integer have the
+   method; Float.quantized additionally checks that the bounds are close to multiples of q, which
+   holds for a dictionary written by to_dict and is not modelled) *)
+Definition requant (qo : option Q) (s : sampler) : sampler :=
+  match qo with Some q => SQuant s q | None => s end.
 
 (* the constructors' assertions that concern the listed classes *)
 Definition all_same_type (c : list val) : bool :=
@@ -679,34 +730,36 @@ Definition from_dict (d : ddict) : option domain :=
   match d_cls d, d_sampler d with
   | CFloat, Some (n, sk) =>
       match kw_get KLower k, kw_get KUpper k, sampler_from CFloat n sk with
-      | Some (JQ lo), Some (JQ hi), Some s => if Qleb lo hi then Some (DFloat lo hi s) else None
+      | Some (JQ lo), Some (JQ hi), Some s =>
+          if Qleb lo hi then Some (DFloat lo hi (requant (d_quant d) s)) else None
       | _, _, _ => None
       end
   | CInteger, Some (n, sk) =>
       match kw_get KLower k, kw_get KUpper k, sampler_from CInteger n sk with
-      | Some (JZ lo), Some (JZ hi), Some s => if Z.leb lo hi then Some (DInteger lo hi s) else None
+      | Some (JZ lo), Some (JZ hi), Some s =>
+          if Z.leb lo hi then Some (DInteger lo hi (requant (d_quant d) s)) else None
       | _, _, _ => None
       end
   | CCategorical, Some (n, sk) =>
-      match kw_get KCategories k, sampler_from CCategorical n sk with
-      | Some (JL c), Some s => if all_same_type c then Some (DCategorical c s) else None
-      | _, _ => None
+      match kw_get KCategories k, sampler_from CCategorical n sk, d_quant d with
+      | Some (JL c), Some s, None => if all_same_type c then Some (DCategorical c s) else None
+      | _, _, _ => None
       end
   | COrdinal, Some (n, sk) =>
-      match kw_get KCategories k, sampler_from COrdinal n sk with
-      | Some (JL c), Some s => if all_same_type c then Some (DOrdinal c s) else None
-      | _, _ => None
+      match kw_get KCategories k, sampler_from COrdinal n sk, d_quant d with
+      | Some (JL c), Some s, None => if all_same_type c then Some (DOrdinal c s) else None
+      | _, _, _ => None
       end
   | COrdinalNN, None =>
-      match kw_get KCategories k, kw_get KLogScale k with
-      | Some (JL c), Some (JB ls) => if all_same_type c then Some (DOrdinalNN c ls) else None
-      | _, _ => None
+      match kw_get KCategories k, kw_get KLogScale k, d_quant d with
+      | Some (JL c), Some (JB ls), None => if all_same_type c then Some (DOrdinalNN c ls) else None
+      | _, _, _ => None
       end
   | CFiniteRange, None =>
-      match kw_get KLower k, kw_get KUpper k, kw_get KSize k, kw_get KLogScale k, kw_get KCastInt k with
-      | Some (JQ lo), Some (JQ hi), Some (JZ size), Some (JB ls), Some (JB ci) =>
+      match kw_get KLower k, kw_get KUpper k, kw_get KSize k, kw_get KLogScale k, kw_get KCastInt k, d_quant d with
+      | Some (JQ lo), Some (JQ hi), Some (JZ size), Some (JB ls), Some (JB ci), None =>
           if Qleb lo hi && Z.leb 1 size then Some (DFiniteRange lo hi size ls ci) else None
-      | _, _, _, _, _ => None
+      | _, _, _, _, _, _ => None
       end
   | _, _ => None
   end.
